@@ -223,7 +223,7 @@ func runC11(c *core.Check) {
 			// inside the loop over matched edges (for _, e := range ea) the edge exists by construction
 			inMatched := false
 			ast.Inspect(ce.Decl.Body, func(m ast.Node) bool {
-				if rs, ok := m.(*ast.RangeStmt); ok && call.Pos() > rs.Body.Pos() && call.End() < rs.Body.End() && len(call.Args) == 1 && rs.Value != nil && rootIdent(info, call.Args[0]) == core.ObjOf(info, rs.Value) {
+				if rs, ok := m.(*ast.RangeStmt); ok && call.Pos() > rs.Body.Pos() && call.End() < rs.Body.End() && len(call.Args) == 1 && rs.Value != nil && rootIdent(info, call.Args[0]) == core.ObjOf(info, rs.Value) && strings.HasSuffix(exprStr(call.Args[0]), ".ID") {
 					inMatched = true
 				}
 				return true
